@@ -20,6 +20,7 @@ class Scen:
         self.flow = flow
         self.compressible = compressible
         self.rotational = rotational
+        self.units = "SI"
 
     def clone(self):
         return copy.deepcopy(self)
@@ -30,6 +31,7 @@ def base_scenario(cls, rng, k=0, nx=2, nyh=3, shape=None):
     shapes = ["all", "swept", "tapered", "cambered", "twisted", "dihedral", "flat"]
     surfs = []
     symflow = cls["symflow"]
+    geosym = symflow or cls["span"] == "half"  # the geometry of a half model is mirror-symmetric whatever the flow
     for i in range(cls["nsurf"]):
         nyf = 2 * (nyh + (i % 2)) - 1 if i == 0 else 2 * nyh - 1
         rec = dict(
@@ -40,8 +42,8 @@ def base_scenario(cls, rng, k=0, nx=2, nyh=3, shape=None):
             span=float(rng.uniform(6, 11)) / (1 + i),
             chord=float(rng.uniform(0.9, 1.8)) / (1 + 0.5 * i),
             jitter=0.02,
-            asym=0.0 if symflow else 0.6,
-            off=(3.5 * i, 0.0 if symflow else 0.4 * i, 0.5 * i),
+            asym=0.0 if geosym else 0.6,
+            off=(3.5 * i, 0.0 if geosym else 0.4 * i, 0.5 * i),
         )
         fm = B.surf_mesh(rec, rng)
         if cls["span"] == "half":
@@ -95,7 +97,7 @@ def model_of(sc):
             d["groundplane"] = True
         dicts.append(d)
     fl = {k: v for k, v in sc.flow.items() if v is not None}
-    return B.AeroModel([{} for _ in dicts], flow=fl, compressible=sc.compressible, rotational=sc.rotational, dicts=dicts)
+    return B.AeroModel([{} for _ in dicts], flow=fl, compressible=sc.compressible, rotational=sc.rotational, dicts=dicts, units=getattr(sc, "units", "SI"))
 
 
 def observe(sc):
@@ -172,6 +174,11 @@ def apply(act, sc):
         f["cg"] = [f["cg"][0], -f["cg"][1], f["cg"][2]]
         if f.get("omega") is not None:
             f["omega"] = [-f["omega"][0], f["omega"][1], -f["omega"][2]]
+    elif n == "Reexpress":
+        s2.units = "alt" if getattr(s2, "units", "SI") == "SI" else "SI"
+    elif n == "Reorder":
+        for s in s2.surfs:
+            s["mesh"] = s["mesh"][:, ::-1, :].copy()
     elif n == "Halve":
         for s in s2.surfs:
             s["mesh"] = B.half_of(s["mesh"], par)
@@ -247,7 +254,7 @@ def predict_and_compare(act, sc_old, ob_old, sc_new, ob_new, tol=1e-9):
         if n == "Permute":
             olds = olds[::-1]
         for i in range(nsurf_old):
-            a_old = olds[i] * f
+            a_old = olds[i] * f * float(lw.get("osign", 1))
             if o in VECTOR:
                 a_old = a_old * sg
             ax = SPAN_AXIS.get(o)
